@@ -2,9 +2,9 @@ SPECIFICATION Spec
 CONSTANTS
   MaxScript = 3
   MaxSpurious = 1
-  FORWARD_WAKER = FALSE
+  FORWARD_WAKER = TRUE
   READY_DRAINS = TRUE
-  FILTER_MODE = "none"
+  FILTER_MODE = "filter-pending"
 INVARIANTS TypeOK PrefixInv QueueInv DoneInv
 PROPERTIES Terminates
 CHECK_DEADLOCK FALSE
